@@ -16,6 +16,12 @@ CLAIMED = {
             'CSVRecordIterator of rbql-py and smart_split of rbql-js and compared with what TLC computed; random long Unicode lines recorded from both ports are judged by TLC (CsvDialectTrace).',
             'Exhaustive only within the bound (quick: length<=7 for "," ; thorough: <=9); longer lines are sampled. TLC, the JSON bridge and the harness projections are trusted; the declarative dialect is my reading of the statement.',
             'TLA+ dialect spec + scanner state machine model-checked by TLC; exhaustive spec->code replay; code->spec trace validation by TLC'),
+    'C12': ('5 C12, 3.8',
+            'TLC explores the reader state machine (CsvReader: one step per stream.read, short reads nondeterministic, CR look-ahead its own step) for every text within the bound '
+            'and proves that every delivery schedule ends in RefRead(text); each (text, policy, comment) case is then delivered to the real CSVRecordIterator under all 2^(n-1) partitions, '
+            'all chunk sizes, byte-level partitions of utf-8/latin-1 encodings, with and without header, and compared with TLC\'s RefRead; recorded read-event traces of bigger random texts are validated step by step by TLC (CsvReaderTrace).',
+            'Exhaustive within the bound (quick: texts <= 4 over 7 symbols; thorough: <= 6); single-character delimiter and comment prefix; TextIOWrapper (stdlib) does the incremental decoding.',
+            'TLA+ reader state machine with nondeterministic short reads model-checked by TLC; exhaustive schedule replay; stepwise trace validation by TLC'),
 }
 
 PENDING_REASON = 'check not built yet in this session (specification work in progress; see DESIGN.md section 5 for the plan)'
